@@ -1,6 +1,7 @@
 import Comdex.Base.Line
 import Comdex.Model.AmmPool
 import Comdex.Model.AmmKeeper
+import Comdex.Model.AmmDust
 /-! Driver for the batch-matching model (property C05).
 
 Lines (tab separated, after the sequence number):
@@ -37,7 +38,10 @@ results := `id:open:paid:received:matched` joined by `;`, every order of the seq
 Prices are Dec raws.  After every op the model continues from the REAL resulting order states.
 
 Monitors (evaluated on the REAL results): base_conserved (only where the D2 ghost `matchLossless`/`ticksLossless` predicts the
-loss; base_conserved_unexplained for any other disagreement with the prediction), quote_dust, fill_within_limits,
+loss; base_conserved_unexplained for any other disagreement with the prediction), quote_dust (`monQuoteDustAt` on the orders of
+the book before / after the real call = the statement of `quote_dust_bounds_match` / `_single`; every order outside the book
+untouched), quote_dust_exceeds_fills (the clause as written, `dust < #fills`, false on a real result on which the D2 ghost
+predicts a loss — `quote_dust_counterexample`; without the ghost's prediction it is reported as quote_dust), fill_within_limits,
 fill_price_within_limit, matched_receives_positive (definitions: `Comdex.Amm.Mon*` in the model file's
 companion section below — they are the decidable forms of the theorems of `Props/C05.lean`).
 -/
@@ -105,7 +109,7 @@ def resetFills (os : List Order) : List Order := os.map fun o => { o with fills 
 
 /-- evaluate the monitors on real results -/
 def monitors (seq : String) (pre post : List Order) (q : Option Int) (outcome : String) (flags : List String)
-    (lossless : Bool := true) : List String :=
+    (lossless : Bool := true) (dustAt : Option (List Order × Int × Int) := none) : List String :=
   let m0 := if outcome = "panic" then [s!"MON\t{seq}\tfill_within_limits"] else
             if monFillWithinLimits pre post then [] else [s!"MON\t{seq}\tfill_within_limits"]
   -- `lossless` is the ghost of `base_conserved_iff_lossless`, computed from the INPUT: it is false exactly on the books on which
@@ -115,9 +119,17 @@ def monitors (seq : String) (pre post : List Order) (q : Option Int) (outcome : 
     | true, true => []
     | false, false => [s!"MON\t{seq}\tbase_conserved"]
     | _, _ => [s!"MON\t{seq}\tbase_conserved_unexplained"]
-  let m2 := match q with
-    | some q => if monQuoteDust pre post q then [] else [s!"MON\t{seq}\tquote_dust"]
-    | none => if monUntouched pre post then [] else [s!"MON\t{seq}\tquote_dust"]
+  let m2 := match q, dustAt with
+    | some q, some (bookPre, lo, hi) =>
+      -- the statement of `quote_dust_bounds_match` / `_single` on the REAL result: the orders of the book before and after
+      let bookPost := realBookOrders bookPre post
+      let outside := (pre.zip post).all fun (o, o') => bookPre.any (fun x => x.id == o.id) ||
+        (decide (o'.opn = o.opn) && decide (o'.paid = o.paid) && decide (o'.received = o.received))
+      if !(monQuoteDustAt bookPre bookPost q lo hi && outside) then [s!"MON\t{seq}\tquote_dust"]
+      else if monDustBelowFills bookPre bookPost q then []
+      else if lossless then [s!"MON\t{seq}\tquote_dust"] else [s!"MON\t{seq}\tquote_dust_exceeds_fills"]
+    | some q, none => if monQuoteDust pre post q then [] else [s!"MON\t{seq}\tquote_dust"]
+    | none, _ => if monUntouched pre post then [] else [s!"MON\t{seq}\tquote_dust"]
   let m3 := if monFillPriceWithinLimit pre post then [] else [s!"MON\t{seq}\tfill_price_within_limit"]
   let m4 := if monMatchedReceivesPositive pre post &&
               flags == post.map (fun o => if o.isMatched then "1" else "0") then [] else [s!"MON\t{seq}\tmatched_receives_positive"]
@@ -126,7 +138,7 @@ def monitors (seq : String) (pre post : List Order) (q : Option Int) (outcome : 
 /-- compare a model answer (already rendered) with the real one, then monitor the real one -/
 def finish (st : St) (seq : String) (modelHead : String) (modelPost : Option (List Order)) (implHead : String)
     (outcome : String) (qcd : String) (res : String) (fillOp : Bool := false) (distOp : Bool := false)
-    (lossless : Bool := true) : St × List String :=
+    (lossless : Bool := true) (dustAt : Option (List Order × Int × Int) := none) : St × List String :=
   let pre := st.orders
   let mpost := (modelPost.getD pre)
   let modelLine := s!"{modelHead}\t{showRes mpost}"
@@ -145,7 +157,7 @@ def finish (st : St) (seq : String) (modelHead : String) (modelPost : Option (Li
       else if distOp then
         (monitors seq pre real none outcome (realFlags res)).filter
           (fun m => m.endsWith "fill_within_limits" || m.endsWith "matched_receives_positive")
-      else monitors seq pre real q outcome (realFlags res) lossless
+      else monitors seq pre real q outcome (realFlags res) lossless dustAt
     ({ st with orders := resetFills real }, d ++ mons)
 
 def handle (st : St) (seq : String) (f : List String) : St × List String :=
@@ -167,6 +179,7 @@ def handle (st : St) (seq : String) (f : List String) : St × List String :=
       | .ok b' q =>
         let ll := match findMatchableAmount b p with | none => true | some x => ticksLossless b.sells x p
         finish st seq s!"{mf}\tok\t{q}" (some (project st.orders b'.orders)) s!"{fma}\t{outcome}\t{qcd}" outcome qcd res (lossless := ll)
+          (dustAt := some (b.orders, p, p))
   | ["amm.op", "match", lp, dir, outcome, mp, qcd, res] =>
     match parseInt? lp with
     | none => (st, [s!"BAD\t{seq}\tmatch"])
@@ -180,7 +193,7 @@ def handle (st : St) (seq : String) (f : List String) : St × List String :=
         finish st seq s!"{md}\tnomatch\t-\t-" none s!"{dir}\t{outcome}\t{mp}\t{qcd}" outcome qcd res
       | .ok b' mpr q =>
         finish st seq s!"{md}\tok\t{mpr}\t{q}" (some (project st.orders b'.orders)) s!"{dir}\t{outcome}\t{mp}\t{qcd}" outcome qcd res
-          (lossless := matchLossless b lp)
+          (lossless := matchLossless b lp) (dustAt := some (b.orders, priceLo b.orders, priceHi b.orders))
   | ["amm.op", "dist", amt, p, outcome, qcd, res] =>
     match parseInt? amt, parseInt? p with
     | some amt, some p =>
@@ -217,7 +230,9 @@ def handle (st : St) (seq : String) (f : List String) : St × List String :=
           let ll := match findMatchPrice (makeView b) prec with
             | none => true
             | some pr => match findMatchableAmount b pr with | none => true | some x => ticksLossless b.sells x pr
+          let pr := (findMatchPrice (makeView b) prec).getD 0
           finish st seq s!"{mf}\tok\t{q}" (some (project st.orders b'.orders)) s!"{fmp}\t{outcome}\t{qcd}" outcome qcd res (lossless := ll)
+            (dustAt := some (b.orders, pr, pr))
       (st', out ++ pm)
   | ["amm.fmp", prec, r] =>
     match parseNat? prec with
